@@ -380,6 +380,14 @@ func focusedParamMapShapes() []paramQuery {
 	relP := []map[string]any{{"w": int64(1)}, {"name": "x"}}
 	var out []paramQuery
 	add := func(q string, m map[string]any) { out = append(out, paramQuery{q, m}) }
+	// a parameter map on a variable-length / exact-range relationship pattern
+	for _, p := range relP {
+		for _, r := range []string{"*1", "*2", "*2..2", "*1..3"} {
+			add("match (a)-["+r+"$p]->(b) return id(a), id(b)", map[string]any{"p": p})
+			add("match (a)<-[:EdgeKind1"+r+"$p]-(b) return id(a), id(b)", map[string]any{"p": p})
+			add("match p = (a)-["+r+"$p]->(b) return p", map[string]any{"p": p})
+		}
+	}
 	for _, p := range nodeP {
 		add("match (a $p) return a", map[string]any{"p": p})
 		add("match (a $p)-[r]->(b) return a, r, b", map[string]any{"p": p})
@@ -429,6 +437,117 @@ func focusedExactRangeShapes() []string {
 			"match (n)-[r"+r+"]->(m) return r",
 			"match (n)<-["+r+"]-(m) return n, m",
 		)
+	}
+	// a PROPERTY MAP on the variable-length / exact-range relationship pattern (written directly after the range): every relationship of
+	// the walk must carry it — on graphs where hop 1 and hop 2 differ on the key the lowered second hop must be constrained too
+	for _, r := range []string{"*1", "*2", "*2..2", "*1..3", "*2..3"} {
+		for _, m := range []string{"{w: 1}", "{name: 'x'}", "{w: 0, name: 'x'}"} {
+			out = append(out,
+				"match (a)-["+r+m+"]->(b) return id(a), id(b)",
+				"match (a)-[:EdgeKind1"+r+m+"]->(b) return a, b",
+				"match (a)<-["+r+m+"]-(b) return id(a), id(b)",
+				"match (a:NodeKind1)<-[:EdgeKind1|EdgeKind2"+r+m+"]-(b) return id(a), id(b)",
+				"match p = (a)-["+r+m+"]->(b) return p",
+				"match (a) where (a)-["+r+m+"]->() return id(a)",
+				"match (a)-["+r+m+"]->(b)-[q]->(c) return id(a), id(c)",
+				"match (m) match (a)-["+r+m+"]->(m) return id(a), id(m)",
+			)
+		}
+	}
+	return out
+}
+
+// focusedDoubleLiteralShapes: double literals that need MORE than 32-bit precision (>= 8 significant digits, integral values above 2^24 and
+// near 2^53, values one float32 step away from a stored 1.5) next to short ones, in every literal position: comparison operand (each
+// operator), IN list element, arithmetic operand in WHERE / RETURN / WITH, bare RETURN / WITH item, against node, relationship and id() operands.
+func focusedDoubleLiteralShapes() []string {
+	lits := []string{"0.123456789", "16777217.0", "0.30000000000000004", "1.5000000001", "1.4999999999", "9007199254740993.0", "1700000000.5",
+		"123456.789012", "-0.123456789", "1.5", "0.5", "100.0"}
+	ops := []string{"=", "<>", "<", "<=", ">", ">="}
+	var out []string
+	for i, l := range lits {
+		op := ops[i%len(ops)]
+		op2 := ops[(i+3)%len(ops)]
+		out = append(out,
+			"match (n) where n.a "+op+" "+l+" return n",
+			"match (n) where n.a "+op2+" "+l+" return id(n)",
+			"match (n) where id(n) "+op+" "+l+" return id(n)",
+			"match (n) where n.a in [0.1, "+l+"] return n",
+			"match (n) where id(n) + "+l+" > 2 return id(n)",
+			"match (n) return id(n) + "+l,
+			"match (n) return "+l,
+			"match (n) with n, "+l+" as x return id(n), x",
+			"match (n) with id(n) * "+l+" as x where x > 1 return x",
+			"match (a)-[r]->(b) where r.w "+op+" "+l+" return id(r)",
+		)
+	}
+	out = append(out,
+		"match (n) where n.a >= 1.5000000001 or n.a <= 1.4999999999 return n",
+		"match (n) where n.a in [1.5000000001, 16777217.0, 0.30000000000000004] return n",
+		"match (n) where n.a = 1.5 return n",
+		"match (n) return 16777217.0, 16777216.0, 0.1 + 0.2",
+	)
+	return out
+}
+
+// focusedLimitBoundaryShapes: the boundary values of LIMIT / SKIP (LIMIT 0, LIMIT 1, a LIMIT beyond 2^31 and the largest int64, SKIP 0, a SKIP
+// beyond every row count) on each shape that triggers a fast path or a lowering that handles the LIMIT itself — aggregate traversal count,
+// count fast path, limit pushdown (fixed hop, named path, shortest path), ordered projections, WITH — so that a zero / huge value read as
+// "unset" or wrapped shows as a row-count difference.
+func focusedLimitBoundaryShapes() []string {
+	limits := []string{"0", "1", "2147483648", "9223372036854775807"}
+	var out []string
+	for _, l := range limits {
+		out = append(out,
+			"match (u:NodeKind1) match (u)-[:EdgeKind1*1..]->(g) with u, count(g) as n return u, n order by n desc limit "+l,
+			"match (u) match (u)-[:EdgeKind1*0..2]->(g:NodeKind2) with u, count(g) as n return u order by n desc limit "+l,
+			"match (u:NodeKind1) match (u)-[:EdgeKind1*1..]->(g) with u, count(g) as n return u, n order by n desc skip 0 limit "+l,
+			"match (n) return count(n) limit "+l,
+			"match (a)-[r]->(b) return count(r) limit "+l,
+			"match (a)-[r]->(b) return id(b) limit "+l,
+			"match (a:NodeKind1)-[r:EdgeKind1]->(b) where a.name = 'x' return a, r, b limit "+l,
+			"match p = (a)-[r]->(b) return p limit "+l,
+			"match p = shortestPath((a:NodeKind1)-[*1..]->(b:NodeKind2)) return p limit "+l,
+			"match (n) return id(n) order by id(n) limit "+l,
+			"match (n) return id(n) order by id(n) skip 1 limit "+l,
+			"match (n) with n order by id(n) limit "+l+" return id(n)",
+			"match (a)-[*1..2]->(b) return id(a), id(b) limit "+l,
+		)
+	}
+	for _, s := range []string{"0", "1000", "2147483648"} {
+		out = append(out,
+			"match (n) return id(n) order by id(n) skip "+s,
+			"match (n) return id(n) order by id(n) skip "+s+" limit 1",
+			"match (a)-[r]->(b) return id(r) order by id(r) skip "+s+" limit 2",
+			"match (n) with n order by id(n) skip "+s+" return id(n)",
+			"match (u:NodeKind1) match (u)-[:EdgeKind1*1..]->(g) with u, count(g) as n return u, n order by n desc skip "+s+" limit 5",
+		)
+	}
+	return out
+}
+
+// focusedLimitTailFilterShapes: LIMIT (no ORDER BY) on a NON-shortest-path pattern bound to a path variable whose WHERE holds a predicate that
+// stays in the tail SELECT — quantifiers over relationships(p) / nodes(p) — next to predicates that live inside the frame: the LIMIT must not
+// be moved below a filter of the tail.
+func focusedLimitTailFilterShapes() []string {
+	var out []string
+	for _, l := range []string{"1", "2"} {
+		for _, pat := range []string{"(a)-[:EdgeKind1]->(b)", "(a)-[]->(b)", "(a:NodeKind1)-[]->(b)", "(a)-[]->(b)-[]->(c)"} {
+			for _, q := range []string{
+				"none(r in relationships(p) where r.w = 1)",
+				"any(r in relationships(p) where r.w = 1)",
+				"all(r in relationships(p) where r.w = 1)",
+				"none(r in relationships(p) where r.name = 'x')",
+				"none(x in nodes(p) where x.a = 1)",
+				"any(x in nodes(p) where x.name = 'x')",
+			} {
+				out = append(out, "match p = "+pat+" where "+q+" return id(a) limit "+l)
+			}
+			out = append(out,
+				"match p = "+pat+" where none(r in relationships(p) where r.w = 1) and a.name = 'x' return p limit "+l,
+				"match p = "+pat+" where a.a = 1 return id(a) limit "+l,
+			)
+		}
 	}
 	return out
 }
